@@ -237,6 +237,15 @@ pub fn run(ctx: &Ctx) {
             }
         }
     }
+    // inputs larger than 16 KiB and names near the 255-byte limit (parsed from reference encodings)
+    for o in 16360..=16400usize {
+        for v in 0..4 {
+            extra.push(gen::straddle_packet(o, v));
+        }
+    }
+    extra.extend(gen::long_name_packets());
+    extra.push(gen::big_shared_packet(20, 1600));
+    extra.push(gen::big_shared_packet(120, 500));
     space.extend(extra);
     let pchunks: Vec<&[RefPacket]> = space.chunks(64).collect();
     let n3 = std::sync::atomic::AtomicU64::new(0);
